@@ -1192,6 +1192,45 @@ Theorem C04_tucker_copy_heap : forall (F : Type) (th : theap (F:=F)) cells o th'
 Proof. exact @tucker_copy_spec. Qed.
 Print Assumptions C04_tucker_copy_heap.
 
+(* end to end at the level of objects, in every commutative ring: the object returned by obj.mode_dot represents the mode product of
+   what the operand object represented (either copy flag, whatever the aliasing in the operand's list) and advertises its shape *)
+Theorem C04_tucker_mode_dot_method_contract_entry : forall (F : Type) (Op : fops F), ring_theory (f0 Op) (f1 Op) (fadd Op) (fmul Op) (fsub Op) (fopp Op) (@eq F) ->
+  forall (th : theap) cells o copy v mode th' cells' o' idx',
+  tcell_wf th (tcellr cells o) ->
+  tucker_mode_dot_method_h Op th cells o copy (OpVec v) mode false = Ok (th', cells', o') ->
+  S (length idx') = length (snd (tobj_read th cells o)) ->
+  tc_shape (tcellr cells' o') = remove_nth mode (cp_shape (snd (tobj_read th cells o))) /\
+  tucker_entry Op (fst (tobj_read th' cells' o')) (snd (tobj_read th' cells' o')) idx' =
+  sumn Op (length (nth mode (snd (tobj_read th cells o)) []))
+       (fun i => fmul Op (vget Op v i) (tucker_entry Op (fst (tobj_read th cells o)) (snd (tobj_read th cells o)) (insert_at mode i idx'))).
+Proof. exact @tucker_mode_dot_method_contract_entry. Qed.
+Print Assumptions C04_tucker_mode_dot_method_contract_entry.
+
+Theorem C04_tucker_mode_dot_method_matrix_entry : forall (F : Type) (Op : fops F), ring_theory (f0 Op) (f1 Op) (fadd Op) (fmul Op) (fsub Op) (fopp Op) (@eq F) ->
+  forall (th : theap) cells o copy M kd mode th' cells' o' idx j,
+  tcell_wf th (tcellr cells o) ->
+  tucker_mode_dot_method_h Op th cells o copy (OpMat M) mode kd = Ok (th', cells', o') ->
+  length idx = length (snd (tobj_read th cells o)) -> j < length M ->
+  tc_shape (tcellr cells' o') = set_nth mode (length M) (cp_shape (snd (tobj_read th cells o))) /\
+  tucker_entry Op (fst (tobj_read th' cells' o')) (snd (tobj_read th' cells' o')) (set_nth mode j idx) =
+  sumn Op (length (nth mode (snd (tobj_read th cells o)) []))
+       (fun i => fmul Op (mget Op M j i) (tucker_entry Op (fst (tobj_read th cells o)) (snd (tobj_read th cells o)) (set_nth mode i idx))).
+Proof. exact @tucker_mode_dot_method_matrix_entry. Qed.
+Print Assumptions C04_tucker_mode_dot_method_matrix_entry.
+
+(* obj[1] = <list at location fl'>: the object names the new list and keeps its OLD shape / rank attributes, no other cell changes; it is
+   consistent afterwards exactly when the new contents are a valid Tucker tensor with the old mode sizes and ranks *)
+Theorem C04_tucker_setitem_factors : forall (F : Type) (th : theap (F:=F)) cells o fl' cells',
+  o < length cells -> tucker_setitem_h cells o 1 fl' = Ok cells' ->
+  length cells' = length cells /\ (forall k, k <> o -> tcellr cells' k = tcellr cells k) /\
+  tc_shape (tcellr cells' o) = tc_shape (tcellr cells o) /\ tc_rank (tcellr cells' o) = tc_rank (tcellr cells o) /\
+  tobj_read th cells' o = tread th (tc_core (tcellr cells o)) fl' /\
+  (tobj_consistent th cells' o <->
+   let '(c, fs) := tread th (tc_core (tcellr cells o)) fl' in
+   tucker_okb c fs = true /\ tc_shape (tcellr cells o) = cp_shape fs /\ tc_rank (tcellr cells o) = map (fun A => ncols A) fs).
+Proof. exact @tucker_setitem_factors_spec. Qed.
+Print Assumptions C04_tucker_setitem_factors.
+
 (* the in-place contraction consumes its operand: afterwards the operand object is not a valid Tucker tensor (its old core has one mode
    more than the popped list has factors), whatever its cached shape says *)
 Theorem C04_tucker_mode_dot_inplace_consumes_operand : forall (F : Type) (Op : fops F) (th : theap) cells o v mode th' cells' o',
